@@ -35,6 +35,13 @@ def read_only(fam, est, rows, r):
             pickle.loads(pickle.dumps(est))
 
 
+def prepare(ctx):
+    """Translator tie (see gen_tie.py): the statements of the BaseART methods are regenerated from the source and the
+    theorems about the generated definitions are re-checked"""
+    from .gen_tie import gen_prepare
+    gen_prepare(ctx, ['Control.partial_fit_spec', 'Control.fit_spec', 'Control.partial_fit_append', 'Control.fit_history_independent', 'Control.fit_one_eq_partial_fit_fresh'], "BaseART.partial_fit / fit (translated statements): batching is irrelevant, fit forgets the earlier model")
+
+
 def run(ctx):
     cov = ctx.cov
     N = ctx.scale(420, 4000)
